@@ -98,19 +98,21 @@ var everyFamilies = [][]int64{
 }
 
 type genState struct {
-	R      *hx.Rand
-	ctx    *core.Ctx
-	fam    []int64
-	nOps   int
-	k      int
-	t0     int64
-	tail   []op
-	counts map[string]int
+	R    *hx.Rand
+	ctx  *core.Ctx
+	fam  []int64
+	nOps int
+	k    int
+	t0   int64
+	tail []op
+	// every job of the script blocks until released (then Stop may race a wake-up, and Stop's
+	// context is observed with many jobs outstanding)
+	blockAll bool
 }
 
 func (g *genState) spec() *schedSpec {
 	r := g.R
-	s := &schedSpec{Block: r.Chance(1, 4)}
+	s := &schedSpec{Block: g.blockAll || r.Chance(1, 4)}
 	if r.Chance(1, 4) {
 		// explicit instants: some on whole seconds (shared with the @every entries), some odd
 		n := r.Range(1, 6)
@@ -177,6 +179,21 @@ func (g *genState) removeID(rn *runner) int64 {
 		return ids[g.R.Intn(len(ids))]
 	}
 	return rn.tokens[g.R.Intn(len(rn.tokens))].id // possibly removed already
+}
+
+// everyLive: some live entry has a constant-delay schedule (it always has a Next, so the
+// scheduler always arms a timer)
+func (g *genState) everyLive(rn *runner) bool {
+	live := map[int64]bool{}
+	for _, id := range rn.liveIDs() {
+		live[id] = true
+	}
+	for _, tk := range rn.tokens {
+		if live[tk.id] && tk.spec.K == "every" {
+			return true
+		}
+	}
+	return false
 }
 
 func (g *genState) allBlock(rn *runner) bool {
@@ -260,7 +277,7 @@ func (g *genState) next(rn *runner) (op, bool) {
 		switch q := r.Intn(10); {
 		case q < 4 && len(rn.tokens) < 8:
 			api = op{Op: "sched", S: g.spec()}
-		case q < 8 || !g.allBlock(rn):
+		case q < 7 || !g.allBlock(rn):
 			api = op{Op: "remove", ID: g.removeID(rn)}
 		default:
 			// Stop racing a wake-up: only when every live job blocks, so that "is the context
@@ -268,8 +285,19 @@ func (g *genState) next(rn *runner) (op, bool) {
 			api = op{Op: "stop"}
 		}
 		mode := "apifirst"
-		if r.Bool() {
+		switch r.Intn(5) {
+		case 0, 1:
 			mode = "racy"
+		case 2, 3:
+			if g.everyLive(rn) {
+				// the wake-up at ts[0] (or a later one) is followed by a fair race at the next
+				// timer's instant (+ extra)
+				var extra int64
+				if r.Bool() {
+					extra = int64(r.Range(1, 1_500_000_000))
+				}
+				return op{Op: "race", To: to, Mode: "gated", Extra: extra, API: &api}, true
+			}
 		}
 		return op{Op: "race", To: to, Mode: mode, API: &api}, true
 	case p < 96:
@@ -285,10 +313,13 @@ func c05Gen(ctx *core.Ctx) {
 		scripts = 20000
 	}
 	t0s := []int64{0, 500, 999_999_999, 1_250_000_000, 3 * sec}
+	// hx.NewRand(seed+1) is hx.NewRand(seed) advanced by one step; fork once through a MIXED output so
+	// that different seeds give unrelated streams (every choice still derives from ctx.R)
+	root := ctx.R.Fork().Fork()
 	for i := 0; i < scripts; i++ {
-		r := ctx.R.Fork()
+		r := root.Fork()
 		g := &genState{R: r, ctx: ctx, fam: everyFamilies[i%len(everyFamilies)], nOps: r.Range(12, 36),
-			t0: t0s[r.Intn(len(t0s))]}
+			t0: t0s[r.Intn(len(t0s))], blockAll: r.Chance(1, 4)}
 		c05Run(ctx, c05Input{T0: g.t0}, g.next)
 	}
 }
